@@ -239,6 +239,13 @@ def run(ctx):
     ctx.instance('cmp/uses-partial_cmp')
     if f_pc.nice not in names_c:
         ctx.finding('cmp/partial_cmp', 'Ord::cmp no longer delegates to partial_cmp', f_cmp.loc)
+    CMP_ALLOWED = re.compile(r'(::is_nan$|::type_tag$|<impl core::cmp::Ord for u8>::cmp$|PartialOrd for vibesql_types::sql_value::SqlValue>::partial_cmp$|'
+                             r'^core::cmp::Ordering::|^core::option::Option|^core::intrinsics::|::clone$)')
+    for n in sorted(names_c - {None}):
+        ctx.instance(f'cmp/callee/{n}')
+        if not CMP_ALLOWED.search(n):
+            ctx.finding(f'cmp/bypass/{re.sub(r"<.*?>", "", n).rsplit("::", 1)[-1]}', f'Ord::cmp compares payloads through `{n}`, bypassing partial_cmp: that comparison '
+                        'is not the one eq and hash agree with (e.g. total_cmp separates 0.0 from -0.0 and NaNs by sign, eq does not)', f_cmp.loc)
     sws = enum_switches(prog, f_cmp, SV)
     nan_variants = set()
     for s in sws:
@@ -293,6 +300,32 @@ def run(ctx):
         short = adt_p.rsplit('::', 1)[1]
         ctx.instance(f'struct/{short}', {'type': short, 'eq_fields': sorted(fe_f), 'hash_fields': sorted(fh_f), 'cmp_fields': sorted(fc_f),
                                          'cmp_through_derived_scalar': fc_arith, 'eq_derived': fe.derived, 'hash_derived': fh.derived})
+        if not fe.derived and not fh.derived:
+            from ..engine.symexpr import Sym
+            se = Sym(fe)
+            eq_exprs = set()
+            for b in fe.blocks:
+                for st in b['s']:
+                    if 'd' in st and st['v']['r'] == 'bin' and st['v']['op'] in ('Eq', 'Ne'):
+                        for k in ('a', 'b'):
+                            e = se.op(st['v'][k])
+                            if e.startswith('self'):
+                                eq_exprs.add(e)
+            for i_, t_ in fe.calls():
+                if (callee_name(t_) or '').endswith('::eq') or (callee_name(t_) or '').endswith('::ne'):
+                    for a_ in t_['args']:
+                        e = se.op(a_)
+                        if e.startswith('self'):
+                            eq_exprs.add(e)
+            sh = Sym(fh)
+            hash_exprs = set()
+            for i_, t_ in fh.calls():
+                if 'Hash' in (callee_name(t_) or '') and (callee_name(t_) or '').endswith('::hash') and t_['args']:
+                    hash_exprs.add(sh.op(t_['args'][0]))
+            ctx.instance(f'struct/{short}/eq-hash-expressions', {'eq_compares': sorted(eq_exprs), 'hash_feeds': sorted(hash_exprs)})
+            if eq_exprs and hash_exprs and eq_exprs != hash_exprs:
+                ctx.finding(f'struct/{short}/eq-hash-expr', f'{short}: eq compares {sorted(eq_exprs)} but hash feeds {sorted(hash_exprs)}: values that are '
+                            'equal through a derived quantity hash differently', fh.loc)
         if fe_f != fh_f:
             ctx.finding(f'struct/{short}/eq-hash', f'{short}: eq reads {sorted(fe_f)} but hash reads {sorted(fh_f)}', fh.loc)
         if fc_f != fe_f:
